@@ -73,6 +73,7 @@ fn main() {
         let tier = if std::env::args().any(|a| a == "thorough") { Tier::Thorough } else { Tier::Quick };
         zverif::util::install_quiet_panic_hook();
         zverif::util::silence_stdout();
+        parsers::NO_AS_LIMIT.store(true, std::sync::atomic::Ordering::Relaxed);
         for p in parsers::all(tier) {
             let seeds = match zverif::util::catch(|| (p.seeds)(tier)) {
                 Ok(s) => s,
